@@ -216,6 +216,56 @@ pub mod verif {
             fn warm() {}
         }
 
+        // ---------------------------------------------------------------
+        // C18: allocation counting. In the model the three allocator entry points are replaced by counting
+        // stubs (cargo kani -Z stubbing); natively the replayer installs a counting #[global_allocator]
+        // that reports here. Counting is armed after the primitive has been constructed.
+        // ---------------------------------------------------------------
+        pub static ALLOC_ARMED: AtomicU8 = AtomicU8::new(0);
+        pub static ALLOC_EVENTS: AtomicU32 = AtomicU32::new(0);
+        pub fn arm_alloc() { ALLOC_EVENTS.store(0, Ordering::Relaxed); ALLOC_ARMED.store(1, Ordering::Relaxed); }
+        pub fn disarm_alloc() { ALLOC_ARMED.store(0, Ordering::Relaxed); }
+        pub fn alloc_events() -> u32 { ALLOC_EVENTS.load(Ordering::Relaxed) }
+        #[inline]
+        pub fn note_alloc_event() {
+            if ALLOC_ARMED.load(Ordering::Relaxed) != 0 {
+                let v = ALLOC_EVENTS.load(Ordering::Relaxed);
+                ALLOC_EVENTS.store(v.wrapping_add(1), Ordering::Relaxed);
+            }
+        }
+        #[cfg(all(kani, feature = "alloc"))]
+        pub unsafe fn stub_alloc(layout: core::alloc::Layout) -> *mut u8 {
+            note_alloc_event();
+            alloc::alloc::alloc_zeroed(layout)
+        }
+        #[cfg(all(kani, feature = "alloc"))]
+        pub unsafe fn stub_dealloc(_ptr: *mut u8, _layout: core::alloc::Layout) {
+            note_alloc_event();
+        }
+        #[cfg(all(kani, feature = "alloc"))]
+        pub unsafe fn stub_realloc(_ptr: *mut u8, layout: core::alloc::Layout, new_size: usize) -> *mut u8 {
+            note_alloc_event();
+            alloc::alloc::alloc_zeroed(core::alloc::Layout::from_size_align_unchecked(new_size, layout.align()))
+        }
+
+        /// C17: polling a completed future must panic instead of yielding a second result.
+        /// The first poll has to complete (the caller prepared the primitive accordingly).
+        pub fn repoll_after_ready<F: core::future::Future>(f: F) {
+            let cell = WakeCell::new();
+            let waker = core::mem::ManuallyDrop::new(mk_waker(&cell));
+            let mut cx = core::task::Context::from_waker(&waker);
+            let mut f = core::mem::ManuallyDrop::new(f);
+            match unsafe { core::pin::Pin::new_unchecked(&mut *f) }.poll(&mut cx) {
+                core::task::Poll::Ready(v) => core::mem::forget(v),
+                core::task::Poll::Pending => { assert!(false, "harness: first poll was expected to complete"); }
+            }
+            match unsafe { core::pin::Pin::new_unchecked(&mut *f) }.poll(&mut cx) {
+                core::task::Poll::Ready(v) => core::mem::forget(v),
+                core::task::Poll::Pending => {}
+            }
+            assert!(false, "SENTINEL a completed future was polled again and did not panic");
+        }
+
         /// Property selection masks (one harness body, one instantiation per
         /// property, so that each check decides only its own oracle).
         pub const P01: u32 = 1 << 1;
